@@ -9,7 +9,9 @@ KeysK == {"k1", "k2"}
 \* (the string '1' prints like the number 1 of the first row: a register holds what was written last, not what it resembles)
 ValE  == {[k |-> "col", c |-> "a"], [k |-> "lit", v |-> NumV(5)], [k |-> "lit", v |-> StrV(<<49>>)]} \cup {[k |-> "addvar", key |-> x, c |-> "a"] : x \in KeysK}
 Items == {[k |-> "set", key |-> x, v |-> e] : x \in KeysK, e \in ValE} \cup
-         {[k |-> "get", key |-> "k1", as |-> "g"], [k |-> "get", key |-> "k2", as |-> "h"], [k |-> "col", c |-> "a"]}
+         {[k |-> "get", key |-> "k1", as |-> "g"], [k |-> "get", key |-> "k2", as |-> "h"], [k |-> "col", c |-> "a"],
+          \* GETVAR as the argument of an ordinary function whose arguments name no column: IF(TRUE, GETVAR(k), 0) is GETVAR(k)
+          [k |-> "get", key |-> "k1", as |-> "w", wrap |-> TRUE]}
 Lists == UNION {[1..n -> Items] : n \in 1..MaxItems}
 RowsA == {ObjV([a |-> NumV(i)]) : i \in 1..2}
 Tables == UNION {[1..n -> RowsA] : n \in 0..MaxRows}
@@ -38,7 +40,10 @@ ValAst(v) == CASE v.k = "col" -> [k |-> "col", p |-> <<v.c>>]
                [] v.k = "lit" -> v
                [] OTHER -> [k |-> "bin", op |-> "+", l |-> GetAst(v.key), r |-> [k |-> "col", p |-> <<v.c>>]]
 ItemAst(it) == CASE it.k = "set" -> [k |-> "item", as |-> "", e |-> [k |-> "fn", f |-> "setvar", args |-> <<KeyLit(it.key), ValAst(it.v)>>]]
-                 [] it.k = "get" -> [k |-> "item", as |-> it.as, e |-> GetAst(it.key)]
+                 [] it.k = "get" -> [k |-> "item", as |-> it.as,
+                                     e |-> IF "wrap" \in DOMAIN it
+                                           THEN [k |-> "fn", f |-> "if", args |-> <<[k |-> "lit", v |-> BoolV(TRUE)], GetAst(it.key), [k |-> "lit", v |-> NumV(0)]>>]
+                                           ELSE GetAst(it.key)]
                  [] OTHER -> [k |-> "item", as |-> "", e |-> [k |-> "col", p |-> <<it.c>>]]
 MapV(m) == ObjV(m)
 Export ==
